@@ -136,6 +136,7 @@ func (root *Root) getObjType(gqlType string) (obj *Object, input *Input, err err
 
 func (root *Root) assureType(sample interface{}, obj *Object) error {
 	meta := reflect.TypeOf(sample)
+	verifYield("obj.mu:" + obj.N)
 	obj.mu.Lock()
 	defer obj.mu.Unlock()
 	if obj.meta != nil && obj.meta != meta {
@@ -160,6 +161,7 @@ func (root *Root) getReflectType(meta reflect.Type) (obj Type) {
 	for _, t := range root.types.list {
 		o, _ := t.(*Object)
 		if o != nil {
+			verifYield("obj.mu:" + o.N)
 			o.mu.Lock()
 			if o.meta == meta {
 				obj = o
@@ -184,6 +186,7 @@ func (root *Root) RegisterField(gqlType, gqlField, goField string, args ...strin
 	if obj == nil {
 		return fmt.Errorf("%w: No object to resolve field %s on type %s", ErrMeta, gqlField, gqlType)
 	}
+	verifYield("obj.mu:" + obj.N)
 	obj.mu.Lock()
 	if obj.meta == nil {
 		obj.mu.Unlock()
@@ -194,6 +197,7 @@ func (root *Root) RegisterField(gqlType, gqlField, goField string, args ...strin
 	if fd == nil {
 		return fmt.Errorf("%w: %s is not a field of %s", ErrMeta, gqlField, obj.N)
 	}
+	verifYield("fd.mu:" + fd.N)
 	fd.mu.Lock()
 	err = root.regField(obj, fd, goField, args...)
 	fd.mu.Unlock()
@@ -201,6 +205,7 @@ func (root *Root) RegisterField(gqlType, gqlField, goField string, args ...strin
 }
 
 func (root *Root) regField(obj *Object, fd *FieldDef, goField string, args ...string) (err error) {
+	verifYield("obj.mu:" + obj.N)
 	obj.mu.Lock()
 	meta := obj.meta
 	obj.mu.Unlock()
